@@ -107,6 +107,11 @@ impl MethodSink {
 		self.tx.max_capacity()
 	}
 
+	/// Waits for there to be space on the return channel and reserves it.
+	pub(crate) async fn reserve(&self) -> Result<mpsc::Permit<'_, Box<RawValue>>, DisconnectError> {
+		self.tx.reserve().await.map_err(|_| DisconnectError(RawValue::NULL.to_owned().into()))
+	}
+
 	/// Waits for there to be space on the return channel.
 	pub async fn has_capacity(&self) -> Result<(), DisconnectError> {
 		match self.tx.reserve().await {
